@@ -8,6 +8,7 @@
 
 from __future__ import annotations
 
+import builtins
 import copy
 import logging
 import threading
@@ -326,7 +327,8 @@ class RemoteAssertionTraceObserver(ex.RemoteExecutionObserver):
             depth: The current recursion depth.
             max_depth: The maximum recursion depth.
         """
-        if isinstance(value, float):
+        if isinstance(value, float) and value == value:  # noqa: PLR0124
+            # (NaN never compares equal, not even approximately: only assert on its type)
             trace.add_entry(position, ass.FloatAssertion(source, value))
             return
         if is_assertable(value):
@@ -418,7 +420,8 @@ class RemoteAssertionTraceObserver(ex.RemoteExecutionObserver):
         if not hasattr(typ, "__module__") or not hasattr(typ, "__qualname__"):
             return False
         if typ.__module__ == "builtins":
-            return True
+            # Not every builtin type is bound to a name, e.g., generator or ellipsis.
+            return getattr(builtins, typ.__qualname__, None) is typ
         return typ.__module__ == config.configuration.module_name
 
 
